@@ -750,6 +750,11 @@ pub(crate) fn sm9_u256_pairing(q: &TwistPoint, p: &Point) -> Fp12 {
 
     let mut lw: [Fp2; 3] = [Fp2::zero(); 3];
 
+    // e(O, Q) = e(P, O) = 1
+    if p.is_zero() || q.z.is_zero() {
+        return Fp12::one();
+    }
+
     let p_affine = p.to_affine_point();
     let mut q1 = q.point_neg();
 
